@@ -20,7 +20,9 @@ var keys = []string{"required", "exist", "either", "botheq", "to", "ge", "le", "
 // 大 (U+5927), 听 (U+542C), 丯 (U+4E2F), 丽 (U+4E3D), 乼 (U+4E7C), ħ (U+0127): runes whose low code-point byte equals a syntax
 // byte (' , / = |) - a splitter or parser that narrows runes to bytes confuses them with the syntax characters.
 var rawValues = []string{"", "1", "1~10", "a/b", "'/, ,:'", "-", "中", "a=b", "0", "'x'", "''", "(a)/(b)", "()", "(a", "b)", "大/听", "'大,听'"}
-var messages = []string{"\x00none", "m", "ab", "中", "说明文字", "a=b", "x~y(z)/w", "'a,b'", "'需要,同时'", "=", "a|b", "1", "字", "必须大于1", "请听说明", "丽丯乼ħ", "'大,听'", "(x)"}
+var messages = []string{"\x00none", "m", "ab", "中", "说明文字", "a=b", "x~y(z)/w", "'a,b'", "'需要,同时'", "=", "a|b", "1", "字", "必须大于1", "请听说明", "丽丯乼ħ", "'大,听'", "(x)",
+	// messages that mention the label words themselves: the label is still prepended, exactly once
+	"see explain: at least 1", "字段说明: 不能超过 100", "explain:", "说明:", "explain: twice explain:"}
 
 var zh = regexp.MustCompile("[一-龥]")
 
